@@ -112,6 +112,15 @@ impl SipRewriter {
                 continue;
             }
 
+            // Skip rules with aggregates in the head. The semijoin helper relations are sets
+            // that keep only the named variables of an atom, so anonymous (`_`) columns are
+            // projected away and rows that differ only there collapse - which changes the
+            // number of body valuations that count/sum/avg aggregate over.
+            if rule.head.has_aggregates() {
+                new_rules.push(rule.clone());
+                continue;
+            }
+
             // Skip rules that are recursive (head relation appears in body)
             // or reference recursive relations  -  semijoin reduction can produce
             // empty intermediate results when the filtered relation is being
